@@ -132,7 +132,7 @@ def cases(rng, tier):
         yield dict(kind="bps", tex="hedgehog", n=n, cell=[float(c) for c in gen_cells(rng, 3)], rev=bool(k % 2), off=[0.25, -0.125, 0.375],
                    claim=False, model=True, sub=rng.getrandbits(32))
     for k in range(8 if not big else 50):
-        spec = gen_mesh(rng, 3, nmin=2, nmax=4, max_cells=36, names=NAMES3, bc_prob=0.25)
+        spec = gen_mesh(rng, 3, nmin=1 if k % 4 == 3 else 2, nmax=4, max_cells=36, names=NAMES3, bc_prob=0.25)
         yield dict(kind="bps", tex="smooth", mesh=spec, claim=False, model=True, sub=rng.getrandbits(32))
     # --- demag tensor
     shapes = [(1, 1, 1), (2, 1, 2), (2, 2, 2), (3, 2, 2), (2, 3, 3), (1, 3, 2), (3, 3, 3), (4, 2, 3)] if not big else \
@@ -591,7 +591,9 @@ def run_bps(case, rng, obs, fail):
         s, r = st(lambda: dft.count_bps(f, direction=d))
         res[d] = (s, r)
         if s != "ok":
-            fail(f"count_bps along {d} refused: {r}")
+            # a single cell along the direction leaves nothing to difference: the code raises (model: err)
+            if int(mesh.n[list(mesh.region.dims).index(d)]) >= 2:
+                fail(f"count_bps along {d} refused: {r}")
             continue
         if case["claim"]:
             want = (1, 1, 0) if case["rev"] else (1, 0, 1)
